@@ -234,6 +234,24 @@ func (st *hnState) hn(v ssa.Value, b *ssa.BasicBlock, depth int) bool {
 	case *ssa.Phi:
 		for i, e := range x.Edges {
 			pred := x.Block().Preds[i]
+			// the edge pred -> phi block may itself be the true edge of `e.Health()`
+			if ifi, ok := pred.Instrs[len(pred.Instrs)-1].(*ssa.If); ok && pred.Succs[0] == x.Block() && pred.Succs[0] != pred.Succs[1] {
+				if call, ok := ifi.Cond.(*ssa.Call); ok && methodName(call.Common()) == "Health" {
+					if r := recvOf(call.Common()); r != nil {
+						same := false
+						for _, cv := range sameValueSet(r) {
+							for _, xv := range sameValueSet(e) {
+								if cv == xv {
+									same = true
+								}
+							}
+						}
+						if same {
+							continue
+						}
+					}
+				}
+			}
 			if !st.hn(e, pred, depth+1) {
 				return false
 			}
